@@ -121,4 +121,40 @@ def partValidateBasic (pt : Part) : Except BasicErr Unit :=
   if pt.bytes.length > blockPartSizeBytes then .error .tooBig
   else proofValidateBasic pt.proof
 
+/-! The consumer of block parts: `BlockPartMessage.ValidateBasic` (run by the consensus reactor on a
+message decoded from the wire, `MsgFromProto` included) and `State.addProposalBlockPart`. `block` is
+the byte string handed to the block decoder when the set completes. -/
+structure PartsState where
+  height : Int
+  maxBytes : Int
+  parts : Option PartSet
+  block : Option Bytes
+deriving Repr
+
+/-- `PartSet.ByteSize` -/
+def byteSize (ps : PartSet) : Nat := ((ps.parts.map partBytes).map List.length).sum
+
+inductive ConsRes
+  | errValidate | ignoredHeight | ignoredNoParts | errIndex | errProof | dup
+  | tooBig (added : Bool) | added | complete
+deriving Repr, DecidableEq
+
+def consAddPart (s : PartsState) (height round : Int) (p : Part) : PartsState × ConsRes :=
+  if height < 0 ∨ round < 0 then (s, .errValidate)
+  else match partValidateBasic p with
+  | .error _ => (s, .errValidate)
+  | .ok _ =>
+    if s.height ≠ height then (s, .ignoredHeight)
+    else match s.parts with
+    | none => (s, .ignoredNoParts)
+    | some ps =>
+      let r := addPart H ps p
+      if r.2 = .errIndex then (s, .errIndex)
+      else if r.2 = .errProof then (s, .errProof)
+      else
+        let s' := { s with parts := some r.1 }
+        if (byteSize r.1 : Int) > s.maxBytes then (s', .tooBig (r.2 == .added))
+        else if r.2 == .added && isComplete r.1 then ({ s' with block := some (assemble r.1) }, .complete)
+        else (s', if r.2 == .added then .added else .dup)
+
 end Tmv.PartSet
